@@ -361,8 +361,14 @@ func (e *Engine) BuildQuery(facts []*Term, goal *Term, solver string, lenBound b
 			b.sort.Name, smtName(name), b.tag, smtName("un"+name), smtName(name), smtName(name), smtName(name))
 	}
 	// other declared functions
+	extDeclared := map[string]bool{}
+	for _, x := range q.exts {
+		for _, nm := range x.names {
+			extDeclared[nm] = true
+		}
+	}
 	for _, name := range sortedKeys(e.Defs.funcs) {
-		if !q.ops[name] {
+		if !q.ops[name] || extDeclared[name] {
 			continue
 		}
 		fs := e.Defs.funcs[name]
